@@ -199,22 +199,33 @@ fn c26_unsupported_settings_rejected() {
 
 //@ prop=C26 tier=quick kind=hold
 //@ enc=gmsol_utils::price::Decimal::try_from_price
-//@ bound=truncating test triples (18,8,4),(8,8,2),(12,8,2),(10,5,9),(20,8,2),(20,6,6),(18,8,11); for each of 10 concrete quotients v in {0,1,9,10,4999,5e7,0x55555555,0xAAAAAAAA,2^32-2,2^32-1} EVERY price in [v*10^(dec-prec), (v+1)*10^(dec-prec)) (all remainders); unwind 7
+//@ bound=truncating test triples (18,8,4),(8,8,2),(10,5,9) (two divisions / one division / division by ten after a multiplication-free path); for each of 10 concrete quotients v in {0,1,9,10,4999,5e7,0x55555555,0xAAAAAAAA,2^32-2,2^32-1} EVERY price in [v*10^(dec-prec), (v+1)*10^(dec-prec)) (all remainders); unwind 7
 #[kani::proof]
 #[kani::unwind(7)]
 fn c26_exact_windows_test_triples() {
     windows(18, 8, 4);
     windows(8, 8, 2);
-    windows(12, 8, 2);
     windows(10, 5, 9);
+}
+
+//@ prop=C26 tier=thorough kind=hold
+//@ enc=gmsol_utils::price::Decimal::try_from_price
+//@ bound=truncating test triples (12,8,2),(20,8,2),(20,6,6),(18,8,11),(5,8,4); same 10 quotient windows, every remainder; unwind 7
+//@ timeout=3600
+#[kani::proof]
+#[kani::unwind(7)]
+fn c26_exact_windows_more_test_triples() {
+    windows(12, 8, 2);
     windows(20, 8, 2);
     windows(20, 6, 6);
     windows(18, 8, 11);
+    windows(5, 8, 4);
 }
 
-//@ prop=C26 tier=quick kind=hold
+//@ prop=C26 tier=thorough kind=hold
 //@ enc=gmsol_utils::price::Decimal::try_from_price
 //@ bound=limit truncating triples (20,20,0),(20,0,0),(20,10,10),(19,1,18),(1,0,0),(20,0,19); same 10 quotient windows, every remainder; unwind 7
+//@ timeout=3600
 #[kani::proof]
 #[kani::unwind(7)]
 fn c26_exact_windows_limit_triples() {
